@@ -104,6 +104,43 @@ def binding_heap() -> str:
     return "; ".join(out)
 
 
+def binding_harvest() -> str:
+    """Trace_Harvest: a well-behaved harvested call is accepted; each corrupted variation is rejected by the clause that owns it;
+    a call whose fresh-retort references already disagree (user code with state) is dropped, not judged"""
+    from .trace import validate
+    ctx = _ctx("harvest")
+    good = {"tags": ["ok"] * 9, "vals": [1] * 9, "has_lax": True, "arg_same": True}
+
+    def mut(**kw):
+        ln = copy.deepcopy(good)
+        for k, v in kw.items():
+            if k in ("tags", "vals"):
+                for i, x in v.items():
+                    ln[k][i - 1] = x
+            else:
+                ln[k] = v
+        return ln
+    cases = [("good", good, set()),
+             ("mode_rejects", mut(tags={7: "err"}), {"modes_agree_on_acceptance"}),
+             ("mode_value", mut(vals={8: 2}), {"modes_agree_on_value"}),
+             ("lax_rejects", mut(tags={9: "err"}), {"strict_narrows"}),
+             ("history", mut(vals={2: 3, 3: 3}), {"history_free"}),
+             ("repeat", mut(vals={3: 5}), {"repeat_equal"}),
+             ("mutated_arg", mut(arg_same=False), {"arg_unchanged"}),
+             ("nondeterministic", mut(vals={5: 9, 7: 4}), set())]
+    verdicts = {v["l"]: v for v in validate(ctx, "Trace_Harvest", [c[1] for c in cases], tag="hv")}
+    out = []
+    for i, (name, _, want) in enumerate(cases, start=1):
+        got = set(verdicts.get(i, {}).get("bad", []))
+        if not want <= got or (not want and got):
+            raise MachineryError(f"binding_harvest: case {name}: clauses {sorted(got)}, expected {sorted(want)}")
+        out.append(f"{name}: {sorted(got) or 'accepted'}")
+    if not verdicts.get(8, {}).get("nd"):
+        raise MachineryError("binding_harvest: the nondeterministic call was not dropped")
+    ctx.scratch.cleanup()
+    return "; ".join(out)
+
+
 def _mutant_replay(name: str, module: str, old: str, new: str, runner) -> str:
     text = (SPEC_DIR / module).read_text()
     if old not in text:
@@ -163,7 +200,7 @@ def mutant_kinds() -> str:
     return _mutant_replay("mutant_kinds", "Kinds.tla", 'hasdfl |-> ~f.req /\\ kind # "typeddict"', "hasdfl |-> ~f.req", runner)
 
 
-TESTS = {"binding_router": binding_router, "binding_heap": binding_heap, "mutant_load": mutant_load, "mutant_layout": mutant_layout,
+TESTS = {"binding_router": binding_router, "binding_heap": binding_heap, "binding_harvest": binding_harvest, "mutant_load": mutant_load, "mutant_layout": mutant_layout,
          "mutant_kinds": mutant_kinds}
 
 
